@@ -414,6 +414,32 @@ def path_condition(ctx, f, stmt: ast.AST):
                             out.append((ctx.X.value_at(f, prev.test), True))
                 if isinstance(cur, ast.If):
                     out.append((ctx.X.value_at(f, cur.test), fld == "body"))
+                if isinstance(cur, ast.match_case) and fld == "body" and isinstance(parent(cur), ast.Match):
+                    # `match S: case V: ...`: S == V here, S != V' for the value patterns of the earlier cases
+                    mt = parent(cur)
+                    subj = ctx.X.value_at(f, mt.subject)
+
+                    def pat_term(p):
+                        if isinstance(p, ast.MatchValue):
+                            return ("cmp", "==", subj, ctx.X.value_at(f, p.value))
+                        if isinstance(p, ast.MatchSingleton):
+                            return ("cmp", "is", subj, ("const", p.value))
+                        if isinstance(p, ast.MatchOr):
+                            parts = [pat_term(x) for x in p.patterns]
+                            return ("bool", "or", tuple(parts)) if all(x is not None for x in parts) else None
+                        return None
+
+                    for prev_case in mt.cases:
+                        if prev_case is cur:
+                            break
+                        pt_ = pat_term(prev_case.pattern)
+                        if pt_ is not None and prev_case.guard is None:
+                            out.append((pt_, False))
+                    pt_ = pat_term(cur.pattern)
+                    if pt_ is not None:
+                        out.append((pt_, True))
+                    if cur.guard is not None:
+                        out.append((ctx.X.value_at(f, cur.guard), True))
                 if isinstance(cur, ast.For) and fld == "body":
                     # a loop over a filtered comprehension: its `if` holds for every element the body sees
                     from .terms import _retag, comp_loop_ids
